@@ -606,6 +606,24 @@ theorem has_relationship_without_target (rows : List RowX) (fuel : Nat) (hf : fu
   rw [← hns] at hi
   exact ⟨inh, hi, hasRelationship_no_target fuel lf (makeX rows) recs rel term s hid rd hg inh hi⟩
 
+
+open Hs.NsA in
+/-- `rel? @target` for a relationship without the `transitive` marker, on a record whose own `id` is not the target:
+no Ref is followed and the reciprocal is never consulted; the answer is "`rel` inherits from `relationship` and some
+tag of the record holds exactly that Ref and has a def whose `rel` tag is a Symbol that fits the term" -/
+theorem has_relationship_direct_target (rows : List RowX) (fuel : Nat) (hf : fuelFor (makeX rows).ns.defs ≤ fuel)
+    (recs : List RecX) (lf : Nat) (rel : Name) (term : Option Name) (g : Name) (s : RecX)
+    (hid : (some g == s.id) = false) (rd : DefX) (hg : getX (makeX rows).xd rel = some rd)
+    (htr : rd.hasMarker nTransitive = false) :
+    ∃ inh, inheritance fuel (makeX rows).ns rel = .ok inh ∧
+      NsA.hasRelationship fuel (lf + 1) (makeX rows) recs rel term (some g) s =
+        .ok (inh.contains nRelationship &&
+          s.tags.any (fun t => defVal fuel (makeX rows) term t.key rel == FLoops.DefVal.sym true && t.ref == some g)) := by
+  have hns : (makeX rows).ns = make (rows.map RowX.toRow) := rfl
+  obtain ⟨inh, hi, _⟩ := Ns.inheritance_spec (rows.map RowX.toRow) fuel (by rw [← hns]; exact hf) rel
+  rw [← hns] at hi
+  exact ⟨inh, hi, hasRelationship_direct fuel lf (makeX rows) recs rel term g s hid rd hg htr inh hi⟩
+
 /-! Non-vacuity (part 2): a miniature of the standard library.  `tagOn` is a plain association, `tags` is computed
 from it; `ahu is [equip]`; `foo tagOn [equip]`, `bar tagOn [ahu, nowhere]`; `equip` is mandatory; `ahu-foo` is a
 conjunct; `containedBy` is a transitive relationship. -/
